@@ -543,12 +543,16 @@ impl<K: CacheKey + 'static> AsyncCache<K> for DiskCache<K> {
                     Ok(Some(data))
                 }
                 Err(e) => {
-                    // File read failed - remove from index
-                    if let Ok(mut index) = self.index.write() {
-                        index.remove(key);
+                    // File read failed - remove from index, unless another task already
+                    // removed the entry (or stored the key again) since the index was read:
+                    // the counters must only account for an entry actually removed here
+                    if let Ok(mut index) = self.index.write()
+                        && index.get(key).is_some_and(|e| !e.file_path.exists())
+                        && let Some(removed) = index.remove(key)
+                    {
                         self.entry_count.fetch_sub(1, Ordering::Relaxed);
                         self.disk_usage
-                            .fetch_sub(entry.size_bytes as u64, Ordering::Relaxed);
+                            .fetch_sub(removed.size_bytes as u64, Ordering::Relaxed);
                     }
 
                     self.metrics.record_get(false, start_time.elapsed());
